@@ -132,13 +132,19 @@ def _run_unit(args):
                 finally:
                     os.unlink(tf.name)
             if not ok:
+                if site.startswith("unexpected:") and sym is not None:
+                    # an exception only the symbolic run raises: an operation the proxies do not support.  The path
+                    # is undecided (and the unit will be probed on concrete inputs), not a verdict either way
+                    from .core import Inconclusive
+                    raise Inconclusive(f"{site[11:]} raised on symbolic values only (unsupported operation?): "
+                                       f"{str(detail)[:300]}")
                 raise HarnessError(f"{unit_name}: counterexample at {site} does not reproduce on concrete "
                                    f"values ({how}); inputs={inputs}")
             k = _match_known(known, unit_name, site, inputs)
             d = "" if callable(detail) else detail   # lambdas are only evaluated on concrete values
             if k is not None:
                 ex.findings.append(("known", site, inputs, f"{how}; {d}", k["id"]))
-                return "known", _sym_pred(k, sym)
+                return "known", (_sym_pred(k, sym) if sym is not None else None)
             ex.findings.append(("violation", site, inputs, f"{how}; {d}", None))
             return "violation", None
 
@@ -287,6 +293,7 @@ def run_check(modname, tier, jobs=None, only=None):
             "checks_discharged": total.checks,
             "checks_trivially_true": total.checks_trivial,
             "overflow_obligations": total.obligations,
+            "concrete_probe_runs_after_inconclusive": getattr(total, "probes", 0),
             "reach": total.reach,
             "functions_encoded": getattr(mod, "FUNCTIONS", []),
             "bounds": (mod.bounds(tier) if hasattr(mod, "bounds") else getattr(mod, "BOUNDS", {})),
